@@ -144,6 +144,8 @@ def op_json(op, client, want_handed=True):
 
 
 def err_json(e):
+  if isinstance(e, grpc.RpcError) and not isinstance(e, (grpc_util.LocalRpcError, ScriptedRpcError)) and hasattr(e, 'code'):
+    return {'k': 'err', 'code': e.code().name, 'via': 'wire'}
   if isinstance(e, grpc_util.LocalRpcError):
     return {'k': 'err', 'code': e.code().name, 'via': 'handled'}
   if isinstance(e, custom_errors.NotFoundError):
@@ -158,11 +160,17 @@ def err_json(e):
 class RealRunner:
   """One real servicer + scripted Pythia; `step(req)` returns the response JSON."""
 
-  def __init__(self, backend, es_recycle=True, servicer=None, pythia_obj=None):
+  def __init__(self, backend, es_recycle=True, servicer=None, pythia_obj=None, api=None, ds=None):
+    """`api` = object the RPCs are called on (servicer or gRPC stub); `ds` = datastore for snapshots."""
     import datetime
     self.py = pythia_obj or ScriptedPythia()
     period = datetime.timedelta(seconds=0) if es_recycle else datetime.timedelta(days=3650)
-    self.sv = servicer or svc.make_servicer(backend, pythia=self.py, early_stop_recycle_period=period)
+    if api is not None:
+      self.sv = api
+      self.ds = ds
+    else:
+      self.sv = servicer or svc.make_servicer(backend, pythia=self.py, early_stop_recycle_period=period)
+      self.ds = self.sv.datastore
     self.backend = backend
     self.owners = []
     self.clients = []
@@ -254,7 +262,7 @@ class RealRunner:
 
   # -------------------------------------------------------------- snapshot
   def snapshot(self):
-    ds = self.sv.datastore
+    ds = self.ds
     studies = []
     owners_present = []
     for o in self.owners:
